@@ -460,57 +460,53 @@ theorem cfStep_cases (U : Uni) (hv : List Str) (st : CFState) (f : FEnt) :
       isAbs f.path = false ∧ f.path ≠ sLocalModule ∧ isVendoredPackage f.path = false ∧
       inSubmodule hv f.path = false ∧ f.path ≠ sHgArchival ∧ cueModTopRule U f.path = none) := by
   rw [cfStep_eq]
-  have err : ∀ cc' o w, ({ st with cc := cc' } : CFState).addError f.path o w = st ∨
-      (∃ cc'' o' w', ({ st with cc := cc' } : CFState).addError f.path o w
-        = ({ st with cc := cc'' }).addError f.path o' w') ∨
-      (∃ cc'', ({ st with cc := cc' } : CFState).addError f.path o w = cfTail { st with cc := cc'' } f ∧
-        f.kind = .regular ∧ checkFilePath U f.path = none ∧ f.path = pathClean f.path ∧
-        isAbs f.path = false ∧ f.path ≠ sLocalModule ∧ isVendoredPackage f.path = false ∧
-        inSubmodule hv f.path = false ∧ f.path ≠ sHgArchival ∧ cueModTopRule U f.path = none) :=
-    fun cc' o w => Or.inr (Or.inl ⟨cc', o, w, rfl⟩)
+  have err : ∀ (X : CFState) (Q : Prop) cc' o w,
+      X = ({ st with cc := cc' } : CFState).addError f.path o w →
+      (X = st ∨ (∃ cc'' o' w', X = ({ st with cc := cc'' } : CFState).addError f.path o' w') ∨ Q) :=
+    fun _ _ cc' o w h => Or.inr (Or.inl ⟨cc', o, w, h⟩)
   by_cases h1 : f.kind = .lstatErr
-  · rw [if_pos h1]; exact err st.cc _ _
+  · rw [if_pos h1]; exact err _ _ st.cc _ _ rfl
   rw [if_neg h1]
   by_cases h2 : f.kind = .dir
   · rw [if_pos h2]; exact Or.inl rfl
   rw [if_neg h2]
   by_cases h3 : f.path ≠ pathClean f.path
-  · rw [if_pos h3]; exact err st.cc _ _
+  · rw [if_pos h3]; exact err _ _ st.cc _ _ rfl
   rw [if_neg h3]
   by_cases h4 : isAbs f.path = true
-  · rw [if_pos h4]; exact err st.cc _ _
+  · rw [if_pos h4]; exact err _ _ st.cc _ _ rfl
   rw [if_neg h4]
   by_cases h5 : isVendoredPackage f.path = true
-  · rw [if_pos h5]; exact err st.cc _ _
+  · rw [if_pos h5]; exact err _ _ st.cc _ _ rfl
   rw [if_neg h5]
   by_cases h6 : inSubmodule hv f.path = true
-  · rw [if_pos h6]; exact err st.cc _ _
+  · rw [if_pos h6]; exact err _ _ st.cc _ _ rfl
   rw [if_neg h6]
   by_cases h7 : f.path = sHgArchival
-  · rw [if_pos h7]; exact err st.cc _ _
+  · rw [if_pos h7]; exact err _ _ st.cc _ _ rfl
   rw [if_neg h7]
   by_cases h8 : f.path = sLocalModule
-  · rw [if_pos h8]; exact err st.cc _ _
+  · rw [if_pos h8]; exact err _ _ st.cc _ _ rfl
   rw [if_neg h8]
   cases h9 : checkFilePath U f.path with
-  | some e => exact err st.cc _ _
+  | some e => dsimp only; exact err _ _ st.cc _ _ rfl
   | none =>
   dsimp only
   cases h10 : cueModTopRule U f.path with
-  | some w => exact err st.cc _ _
+  | some w => dsimp only; exact err _ _ st.cc _ _ rfl
   | none =>
   dsimp only
   rcases h11 : ccCheckTop U st.cc f.path false with ⟨cc', _ | w⟩
   · dsimp only
     by_cases h12 : f.kind = .symlink
-    · rw [if_pos h12]; exact err cc' _ _
+    · rw [if_pos h12]; exact err _ _ cc' _ _ rfl
     rw [if_neg h12]
     by_cases h13 : f.kind ≠ .regular
-    · rw [if_pos h13]; exact err cc' _ _
+    · rw [if_pos h13]; exact err _ _ cc' _ _ rfl
     rw [if_neg h13]
     exact Or.inr (Or.inr ⟨cc', rfl, Decidable.not_not.mp h13, rfl, Decidable.not_not.mp h3,
       by simpa using h4, h8, by simpa using h5, by simpa using h6, h7, rfl⟩)
-  · exact err cc' _ _
+  · dsimp only; exact err _ _ cc' _ _ rfl
 
 /-- `addError` touches only `errPaths`, `omitted` and `invalid` -/
 theorem CFState.addError_frame (st : CFState) (p : Str) (o : Bool) (w : Why) :
